@@ -1,39 +1,71 @@
 /* VERIF-UNIT
 {
  "name": "ea_collapse_B4",
- "props": ["C01", "C02"],
+ "props": [
+  "C01",
+  "C02"
+ ],
  "level": "B(4)",
- "tier": "wip",
+ "tier": "quick",
  "harness": "h_ea_collapse_b4",
- "enforce": ["refcount_collapse"],
- "includes": ["e2fsck", "lib/support"],
- "defines": ["EXT2_CUSTOM_MEMORY_ROUTINES", "EA_COLLAPSE_B4"],
+ "enforce": [
+  "refcount_collapse"
+ ],
+ "includes": [
+  "e2fsck",
+  "lib/support"
+ ],
+ "defines": [
+  "EXT2_CUSTOM_MEMORY_ROUTINES",
+  "EA_COLLAPSE_B4"
+ ],
  "unwind": 6,
  "unwind_reason": "BOUNDED stand-in: lists of 0..4 entries (every content, every pattern of zero counts); the collapse loop and the harness's own scans run at most 4 times; unwinding assertions on",
- "functions": ["e2fsck/ea_refcount.c:refcount_collapse"],
- "assumes": ["bounded: a list of at most 4 entries, strictly ascending keys (assumed for ALL pairs here), arbitrary counts, arbitrary capacity 1..4, arbitrary cursor",
-	     "the ghost lower bounds / view / presence flag of the two arbitrary ghost keys are COMPUTED by the harness by linear scans (independent of the binary search of the real code)",
-	     "ghost statements in the loop body (hooks-pending/ds.diff) record where the lower bounds move; they write ghosts only"],
- "native": false
+ "functions": [
+  "e2fsck/ea_refcount.c:refcount_collapse"
+ ],
+ "assumes": [
+  "bounded: a list of at most 4 entries, strictly ascending keys (assumed for ALL pairs here), arbitrary counts, arbitrary capacity 1..4, arbitrary cursor",
+  "the ghost lower bounds / view / presence flag of the two arbitrary ghost keys are COMPUTED by the harness by linear scans (independent of the binary search of the real code)",
+  "ghost statements in the loop body (hooks-pending/ds.diff) record where the lower bounds move; they write ghosts only"
+ ],
+ "native": false,
+ "tier_after_hooks": "quick"
 }
 */
 /* VERIF-UNIT
 {
  "name": "ea_collapse_safe",
- "props": ["C01", "C06"],
+ "props": [
+  "C01",
+  "C06"
+ ],
  "level": "U",
- "tier": "wip",
+ "tier": "quick",
  "harness": "h_ea_collapse_safe",
- "enforce": ["refcount_collapse"],
+ "enforce": [
+  "refcount_collapse"
+ ],
  "loop_contracts": true,
- "includes": ["e2fsck", "lib/support"],
- "defines": ["EXT2_CUSTOM_MEMORY_ROUTINES", "EA_COLLAPSE_SAFE"],
+ "includes": [
+  "e2fsck",
+  "lib/support"
+ ],
+ "defines": [
+  "EXT2_CUSTOM_MEMORY_ROUTINES",
+  "EA_COLLAPSE_SAFE"
+ ],
  "unwind": 10,
  "unwind_reason": "no loop of the real code is unwound (in-place loop contract); 10 covers the loops of the contract-instrumentation library",
- "functions": ["e2fsck/ea_refcount.c:refcount_collapse"],
- "assumes": ["count <= size <= 2^31 entries, count <= 2^30 (the loop counters of the real code are unsigned int)",
-	     "list of symbolic length, arbitrary content (no sortedness needed for this statement)"],
- "native": false
+ "functions": [
+  "e2fsck/ea_refcount.c:refcount_collapse"
+ ],
+ "assumes": [
+  "count <= size <= 2^31 entries, count <= 2^30 (the loop counters of the real code are unsigned int)",
+  "list of symbolic length, arbitrary content (no sortedness needed for this statement)"
+ ],
+ "native": false,
+ "tier_after_hooks": "quick"
 }
 */
 /*
